@@ -157,3 +157,51 @@ def check_iso_week_calculator(run, fx):
         run.check(mins == [4], rule, nm, "min_week_days = 4",
                   "Calendar::%s uses an icu_calendar WeekCalculator with min_week_days = %s (the default is 1); ISO 8601 needs 4: "
                   "2021-01-01 is in week 53 of 2020, not week 1" % (nm, mins or "default"), f.loc)
+
+
+def _is_round_call(name):
+    last = name.rsplit("::", 1)[-1]
+    return last in ("round", "round_instant", "round_time", "round_inner") or last.startswith("round_to_")
+
+
+def check_to_string_prints_rounded(run, fx):
+    """C07: fractional-digit precision in toString rounds with the requested mode: what is written is the rounded value"""
+    from ..terms import calls
+    rule = "R2.to-string-prints-the-rounded-value"
+    run.rule(rule, "every to-string function that rounds (calls a rounding kernel with the resolved to-string options) hands the "
+                   "IXDTF builder a time that is derived from the rounding result, and a date derived from the same result "
+                   "(the day carry of a time that rounds up to 24:00): the writer itself only truncates to the precision")
+    rs = fx["temporal_rs"]
+    n = 0
+    for f in rs.fns:
+        if f.hir is None or f.path.endswith(("::with_time", "::with_date")) or "IxdtfStringBuilder" not in str(f.hir):
+            continue
+        ev = H.Evaluator(fx)
+        ev.inline = lambda p: p.startswith("temporal_rs::error::")
+        try:
+            ev.call_fn(f, [H.Sym("param", (p["name"],)) for p in f.params])
+        except (H.Panic, H.Budget):
+            continue
+        rounds = [c for c in ev.trace if _is_round_call(str(c.parts[0]))]
+        times = [c for c in ev.trace if "IxdtfStringBuilder" in str(c.parts[0]) and str(c.parts[0]).endswith("::with_time")]
+        dates = [c for c in ev.trace if "IxdtfStringBuilder" in str(c.parts[0]) and str(c.parts[0]).endswith("::with_date")]
+        if not rounds or not times:
+            continue
+        n += 1
+        name = f.path.replace(CORE, "")
+
+        def from_round(term):
+            return [show(c) for c in calls(term) if _is_round_call(str(c.parts[0]))]
+        tsrc = [r for c in times for r in from_round(c.parts[1][1])] if all(len(c.parts[1]) > 1 for c in times) else []
+        run.check(bool(tsrc), rule, name + "/time", "the time written derives from %s" % (tsrc[:1] or [""])[0][:80],
+                  "%s rounds (%s) but the time it writes, `%s`, does not derive from the rounding result: the text is the "
+                  "truncated value whatever the rounding mode" %
+                  (f.name, show(rounds[0])[:60], show(times[0].parts[1][1])[:100] if len(times[0].parts[1]) > 1 else "?"), f.loc)
+        if dates and tsrc:
+            dsrc = [r for c in dates for r in from_round(c.parts[1][1])] if all(len(c.parts[1]) > 1 for c in dates) else []
+            run.check(bool(set(dsrc) & set(tsrc)), rule, name + "/date", "the date written derives from the same rounding result",
+                      "%s writes a time derived from the rounding result but the date `%s` does not derive from it: a time that "
+                      "rounds up to midnight loses its day carry" % (f.name, show(dates[0].parts[1][1])[:100]), f.loc)
+    if n < 4:
+        run.anchor_missing(rule, "to-string functions", "only %d rounding to-string functions found (expected >= 4: PlainTime, "
+                                                        "PlainDateTime, Instant, ZonedDateTime)" % n)
